@@ -58,7 +58,21 @@ class CSSMediaRule(cssrule.CSSRuleRules):
         """Return serialized property cssText."""
         return cssutils.ser.do_CSSMediaRule(self)
 
-    def _setCssText(self, cssText):  # noqa: C901
+    def _setCssText(self, cssText):
+        """
+        Set `cssText`; a rejected text leaves media and rules as they were.
+        See :meth:`_parseCssText` for the parameter and the exceptions.
+        """
+        oldMedia, oldCssRules = self._media, self._cssRules
+        try:
+            self._parseCssText(cssText)
+        except BaseException:
+            # raised from inside the parse (e.g. by the log in raising mode):
+            # the new media and rules are only partly built
+            self._media, self._cssRules = oldMedia, oldCssRules
+            raise
+
+    def _parseCssText(self, cssText):  # noqa: C901
         """
         :param cssText:
             a parseable string or a tuple of (cssText, dict-of-namespaces)
@@ -265,6 +279,7 @@ class CSSMediaRule(cssrule.CSSRuleRules):
 
     @name.setter
     def name(self, name):
+        self._checkReadonly()
         if isinstance(name, str) or name is None:
             # "" or ''
             if not name:
